@@ -5,8 +5,8 @@ report, and `Generator.clean` on a file system given as the list of its regular 
 
 `κ` is whatever identifies file contents (a digest in the driver, a symbolic content id in C10).
 -/
-namespace Pydjinni.Sys
-open Pydjinni.Gen
+namespace Pydjinni.SysC
+open Pydjinni.GenC
 
 /-- `Generated_<key>`: the per-generator section of the report -/
 structure GenFiles where
@@ -139,4 +139,4 @@ def RunCfg.generators (r : RunCfg) : List G := r.targets.flatMap T.generators
 
 def runTargets (r : RunCfg) (st : FRW Unit × FSys) : FRW Unit × FSys := r.generators.foldl (genStep r) st
 
-end Pydjinni.Sys
+end Pydjinni.SysC
